@@ -33,3 +33,20 @@ package format
 //@     invariant 0 <= start && start <= len(data)
 //@     invariant forall k int :: {data[k]} 0 <= k && k < start ==> (data[k] == ' ' || data[k] == 9 || data[k] == 10 || data[k] == 13)
 //@     decreases len(data) - start
+
+// ZIP family: decided by the archive's entries in this order - a mimetype entry (ODT / EPUB), then an EPUB container
+// file anywhere in the archive, then the FIRST entry (archive order) under word/, xl/ or ppt/.
+//@ spec func ooxmlMarker(n string) bool = n != "[Content_Types].xml" && (strings.HasPrefix(n, "word/") || strings.HasPrefix(n, "xl/") || strings.HasPrefix(n, "ppt/"))
+//@ func detectZIPFormat results (fm, err)
+//@   property C20
+//@   flags nosafety
+//@   atreturn#4 container_means_epub: f.Name == "META-INF/container.xml"
+//@   atreturn#5 word_marker: strings.HasPrefix(f.Name, "word/") && (forall k int :: {zr.File[k]} 0 <= k && k < len(zr.File) ==> zr.File[k].Name != "META-INF/container.xml") && (forall k int :: {zr.File[k]} 0 <= k && k < $i ==> !ooxmlMarker(zr.File[k].Name))
+//@   atreturn#6 sheet_marker: strings.HasPrefix(f.Name, "xl/") && !strings.HasPrefix(f.Name, "word/") && (forall k int :: {zr.File[k]} 0 <= k && k < len(zr.File) ==> zr.File[k].Name != "META-INF/container.xml") && (forall k int :: {zr.File[k]} 0 <= k && k < $i ==> !ooxmlMarker(zr.File[k].Name))
+//@   atreturn#7 slides_marker: strings.HasPrefix(f.Name, "ppt/") && !strings.HasPrefix(f.Name, "word/") && !strings.HasPrefix(f.Name, "xl/") && (forall k int :: {zr.File[k]} 0 <= k && k < len(zr.File) ==> zr.File[k].Name != "META-INF/container.xml") && (forall k int :: {zr.File[k]} 0 <= k && k < $i ==> !ooxmlMarker(zr.File[k].Name))
+//@   atreturn#8 nothing_recognised: (forall k int :: {zr.File[k]} 0 <= k && k < len(zr.File) ==> zr.File[k].Name != "META-INF/container.xml" && !ooxmlMarker(zr.File[k].Name))
+//@   loop 1:
+//@     invariant forall k int :: {zr.File[k]} 0 <= k && k < $i ==> zr.File[k].Name != "META-INF/container.xml"
+//@   loop 2:
+//@     invariant forall k int :: {zr.File[k]} 0 <= k && k < len(zr.File) ==> zr.File[k].Name != "META-INF/container.xml"
+//@     invariant forall k int :: {zr.File[k]} 0 <= k && k < $i ==> !ooxmlMarker(zr.File[k].Name)
